@@ -26,8 +26,10 @@ OkTypes(c) == CASE c = "Base" -> {"str", "list", "dict"}
                 [] OTHER -> {}
 \* effect labels: "import" (a module import was attempted), "call" (something named by the document was called or
 \* instantiated, or had its state set), "getattr" / "modgetattr" (an attribute of an imported module was looked up),
-\* "audit:<event>" (any other interpreter audit event)
-OkEff(c) == IF c = "Full" THEN {"getattr", "modgetattr"} ELSE {}
+\* "objgetattr" (an attribute of an object that the document selected was looked up - not called: the statement of C04
+\* forbids calling, instantiating and mutating the object, it is silent about looking at it), "audit:<event>" (any other
+\* interpreter audit event).  Calling a method of a selected object is "call".
+OkEff(c) == IF c = "Full" THEN {"getattr", "modgetattr", "objgetattr"} ELSE {}
 \* C01 "either raises a YAML error or returns ..."; C04 says nothing about the class of other failures
 YamlOnly(c) == c \in {"Base", "Safe"}
 
